@@ -191,6 +191,8 @@ def unary_ref_check(c):
         if dt == "f32" and not ok and math.isfinite(ref) and math.isfinite(y):
             # results that are tiny or huge in float32 may legitimately flush / saturate by one ulp
             ok = abs(ref - y) <= 2e-5 * max(abs(ref), abs(y)) + 1e-37
+        if c["op"] == "Abs":
+            ok = float_same(ref, y)      # exact, including Abs(-0) = +0
         if not ok:
             return "violates", f"{c['op']}({a!r}) = {y!r}, expected {ref!r}"
     return "holds", ""
